@@ -180,6 +180,13 @@ theorem force_min_spec (prec : Option Frac) (t : T) (hw : WFT t) (hn : NoNone t)
   intro v hv
   exact page_spec picks_min v (nodes_wft t hw v hv)
 
+/-- The defaults found in the current source (`constants.DEFAULT_ULTRAMETRICITY_PRECISION`, `prec` of
+`pybus_harvey_gamma`; regenerated on every run) are well-formed and non-negative, i.e. they do enable the check. -/
+theorem default_precision_enables_check :
+    defaultPrec.WF ∧ (⟨some defaultPrec, false, false⟩ : Cfg).checking = some defaultPrec ∧
+    gammaDefaultPrec.WF ∧ (⟨some gammaDefaultPrec, false, false⟩ : Cfg).checking = some gammaDefaultPrec := by
+  refine ⟨Frac.mk'_wf _ _, ?_, Frac.mk'_wf _ _, ?_⟩ <;> decide
+
 /-- both forcing options at once are refused -/
 theorem force_both_spec (prec : Option Frac) (t : T) : calcNodeAges ⟨prec, true, true⟩ t = .error .value := by
   simp [calcNodeAges]
